@@ -20,5 +20,8 @@ contract("decaylanguage.dec.dec.find_charge_conjugate_match",
 
 contract("decaylanguage.utils.particleutils.charge_conjugate_name",
   types={"name": "str", "pdg_name": "bool"},
+  # never raises, never returns anything but: data-base inverse / name of the negated ID / ChargeConj(name) marker
+  # (EvtGen route), or the PDG spelling of that for the PDG route — this is the definition of ccname
+  defs=["ccname_def(name)"],
   ensures=["result == ccname(name, pdg_name)"],
-  returns="str", properties=["C04"])
+  returns="str", properties=["C04", "C03"])
